@@ -13,6 +13,7 @@ CONSTANTS
  LyingSizes = FALSE
  InlineData = FALSE
  Conc = 64
+ Probes = TRUE
 INIT GInit
 NEXT GNext
 INVARIANTS Emit
